@@ -253,6 +253,12 @@ pub fn canon_pair(fam: &str, kmax: i64, rng: &mut Rng) -> (Vec<(Vec<P>, Vec<Vec<
         let y = v.pop().unwrap();
         return (v.pop().unwrap(), y);
     }
+    if fam == "teeth" {
+        let mut v = gen::teeth_set(rng, 2);
+        let y = v.pop().unwrap();
+        let x = v.pop().unwrap();
+        return if rng.chance(1, 2) { (x, y) } else { (y, x) };
+    }
     if fam == "fan" {
         let (x, y) = gen::fan_pair(rng);
         return if rng.chance(1, 2) { (x, y) } else { (y, x) };
@@ -304,6 +310,12 @@ pub fn canon_triple(fam: &str, kmax: i64, rng: &mut Rng) -> [Vec<(Vec<P>, Vec<Ve
     }
     if fam == "holefill" {
         let mut v = gen::holefill_set(rng, 3);
+        let c = v.pop().unwrap();
+        let b = v.pop().unwrap();
+        return [v.pop().unwrap(), b, c];
+    }
+    if fam == "teeth" {
+        let mut v = gen::teeth_set(rng, 3);
         let c = v.pop().unwrap();
         let b = v.pop().unwrap();
         return [v.pop().unwrap(), b, c];
